@@ -86,12 +86,18 @@ func (g *Gen) fill(kind string, p *Program) Op {
 		op.D = []string{d()}
 	case "Add", "Sub", "Mul", "Quo", "Pow", "Max", "Min", "QuoRem", "Cmp", "CmpAbs", "Equal", "Compare":
 		op.D = []string{d(), d()}
+		if kind == "Pow" && g.R.P(1, 2) {
+			op.D[1] = g.smallConst()
+		}
 	case "ModeTwin":
 		op.D = []string{d(), d()}
 		op.I = []int64{int64(g.R.N(6))}
 	case "AddWithMode", "SubWithMode", "MulWithMode", "QuoWithMode", "PowWithMode", "QuoRemWithMode":
 		op.D = []string{d(), d()}
 		op.I = []int64{g.modeArg()}
+		if kind == "PowWithMode" && g.R.P(1, 2) {
+			op.D[1] = g.smallConst()
+		}
 	case "CmpResult":
 		op.I = []int64{int64(g.R.Range(-3, 3))}
 	case "CeilDP", "FloorDP":
@@ -236,6 +242,18 @@ func (g *Gen) fill(kind string, p *Program) Op {
 		panic("gen: no argument generator for op " + kind)
 	}
 	return op
+}
+
+// smallConst returns one of the constants on which functions tend to have
+// shortcuts (exponents 0, 1, -1, +-0.5, 2, 3, 10, small integers), in a
+// random encoding.
+func (g *Gen) smallConst() string {
+	lits := []string{"0", "1", "-1", "0.5", "-0.5", "2", "-2", "3", "10", "0.1", "1.5", "4", "0.25", "-0", "100", "0.3333333333333333333333333333333333"}
+	l := lits[g.R.N(len(lits))]
+	if g.R.P(1, 2) {
+		return g.cohortMember(l)
+	}
+	return parseLitForGen(l)
 }
 
 func (g *Gen) maxWP() int {
@@ -517,6 +535,9 @@ func Generate(prof *Profile, seed, run uint64) (*Program, *Gen) {
 	nd := g.R.Range(2, 6)
 	for i := 0; i < nd; i++ {
 		g.decs = append(g.decs, g.Dec())
+	}
+	if g.R.P(1, 3) {
+		g.decs = append(g.decs, g.smallConst())
 	}
 	prof.Gen(g, p)
 	return p, g
